@@ -6,6 +6,6 @@ CONSTANTS
   Deep = FALSE
   Dump = FALSE
   OverwriteOnReturn = FALSE
-INVARIANTS UnionHolds NonEmptySets Inert DumpBehaviour
+INVARIANTS UnionHolds NonEmptySets Inert FoldIsMachine DumpBehaviour
 PROPERTY Terminates
 CHECK_DEADLOCK FALSE
